@@ -497,3 +497,18 @@ func init() {
 		},
 	})
 }
+
+func init() {
+	register(&Property{
+		ID:    "C35",
+		Units: []string{"fasthttp.(*Request).MultipartForm", "fasthttp.(*Request).MultipartFormWithLimit", "fasthttp.(*Request).RemoveMultipartFormFiles", "fasthttp.(*Request).ResetBody", "fasthttp.(*Request).Reset", "fasthttp.(*Request).ContinueReadBody", "fasthttp.(*Request).readLimitBody", "fasthttp.(*RequestCtx).MultipartForm", "fasthttp.(*Server).serveConnCounted"},
+		Runs: []Run{
+			{Pkg: "fasthttp", Func: "vhC35TempFiles", NoNative: true},
+		},
+		Assume: []string{
+			"temporary-file half only. mime/multipart creates temporary files only for parts beyond 16 MiB, so under the engine fasthttp's readMultipartForm (its call into mime/multipart) and (*multipart.Form).RemoveAll are replaced by harness stubs (//verif:stub): reading a form consumes the framed body and yields a Form standing for one temporary file, RemoveAll marks it removed; when fasthttp parses, caches, hands out and drops the form is the real code, on the real serve loop",
+			"a multipart POST (well-formed or malformed) followed by a second request in the same or the next segment; DisablePreParseMultipartForm and ReduceMemoryUsage on/off; the handler ignores the form, asks for it once or twice, or removes the files itself; obligations: nothing is left when the next request is dispatched or when the connection is done, every form is removed, at most one parse per request",
+			"the WriteMultipartForm / ReadForm round trip (all inside mime/multipart and os), streamed multipart bodies, timed-out requests and the real temporary files are outside; choices only; not re-run natively (the stubs only exist under the engine)",
+		},
+	})
+}
